@@ -88,6 +88,11 @@ func (s *grpcStreamServer) Exec(stream v1.TestStreamService_ExecServer) error {
 	return s.Handler(stream.Context(), stream)
 }
 
+const (
+	writeDeadlineDL = time.Second
+	idleGap         = 1150 * time.Millisecond
+)
+
 func openTransports(nLanes int) (*transports, error) {
 	t := &transports{lanes: map[string][]*lane{}}
 	// in-memory: a fresh pair per stream (buffer sizes are part of the script)
@@ -135,7 +140,34 @@ func openTransports(nLanes int) (*transports, error) {
 			t.lanes[name] = append(t.lanes[name], l)
 		}
 	}
+	// the same two clients against a second router whose write deadline (1 s) is SHORTER
+	// than the idle gaps of the `idle` layer's handler scripts: every Send must arm the
+	// deadline afresh, however long the stream has been quiet. Payloads there stay below
+	// 32 KiB (they fit the loopback socket buffers, so a write never waits for the reader
+	// and the deadline cannot expire for any reason but staleness).
+	routerDL, err := fhttp.NewRouter(fhttp.RouterConfig{StreamWriteDeadline: writeDeadlineDL})
+	if err != nil {
+		return nil, err
+	}
+	for _, name := range []string{"http-json", "http-msgpack"} {
+		for i := 0; i < nLanes; i++ {
+			path := fmt.Sprintf("/dl/%s/%d", name, i)
+			l := &lane{transport: name}
+			srv := fhttp.NewStreamServer[Req, Res](routerDL, path)
+			srv.BindHandler(l.handler)
+			cli := jsonClient
+			if name == "http-msgpack" {
+				cli = msgpackClient
+			}
+			target := address.Address(ln.Addr().String() + path)
+			l.open = func(ctx context.Context, _ int) (freighter.ClientStream[Req, Res], error) {
+				return cli.Stream(ctx, target)
+			}
+			t.lanes[name+"/deadline"] = append(t.lanes[name+"/deadline"], l)
+		}
+	}
 	router.BindTo(app)
+	routerDL.BindTo(app)
 	go func() { _ = app.Listener(ln, fiber.ListenConfig{DisableStartupMessage: true}) }()
 	t.closers = append(t.closers, func() { _ = app.ShutdownWithTimeout(2 * time.Second) })
 	// gRPC: one server per lane
